@@ -3,6 +3,7 @@ use crate::engine::Property;
 
 pub mod c01;
 pub mod c02;
+pub mod c05;
 pub mod c06;
 pub mod c09;
 pub mod c10;
@@ -17,5 +18,5 @@ pub mod dp;
 pub mod traffic;
 
 pub fn all() -> Vec<Property> {
-    vec![c01::property(), c02::property(), dp::c03(), dp::c04(), c06::property(), dp::c07(), dp::c08(), c09::property(), c10::property(), c11::property(), c12::property(), traffic::c13(), dp::c14(), traffic::c15(), c16::property(), c17::property(), c18::property(), c19::property(), c20::property()]
+    vec![c01::property(), c02::property(), dp::c03(), dp::c04(), c05::property(), c06::property(), dp::c07(), dp::c08(), c09::property(), c10::property(), c11::property(), c12::property(), traffic::c13(), dp::c14(), traffic::c15(), c16::property(), c17::property(), c18::property(), c19::property(), c20::property()]
 }
